@@ -227,6 +227,16 @@ def cfdm_reads(fn, cases, rows, configs):
                         y = app()
                         out["applied"] = attempt(lambda: y.array)
                         out["bapplied"] = attempt(lambda: y.bounds.array)
+                        out["unchanged"] = attempt(lambda: x.array) == out["whole"]
+
+                        def app_in():
+                            g = f.copy()
+                            g.apply_masking(inplace=True)
+                            for k, a in g.auxiliary_coordinates(todict=True).items():
+                                if a.nc_get_variable(None) == name:
+                                    return a
+                        z = app_in()
+                        out["applied_inplace"] = attempt(lambda: z.array)
                     except Exception as ex:
                         out["applied"] = {"err": errclass(ex), "msg": (type(ex).__name__ + ": " + str(ex))[:160]}
                         out["bapplied"] = out["applied"]
